@@ -86,6 +86,31 @@ def run(tier: str, seed: int) -> int:
             else:
                 res.spec_failures.append({"vendor": v, "class": c, "site": "mpi", "what": "mpi generate failed: " + r["err"]})
             res.count("sites_checked")
+        # site 2 once more through the real command line (option converters included): names with capitals, blanks, non-ASCII
+        from concurrent.futures import ThreadPoolExecutor
+        cli_pairs = [("NordicSemi.com", "Sample_Root"), ("ACME", "cls"), ("Acme-IoT.Example", "Sensor_v2"), (" padded ", " cls "), ("é中", "Ünï"), ("nordicsemi.com", "UPPER"),
+                     ("7d9f1e2a-4b3c-4d5e-8f60-a1b2c3d4e5f6", "0x10")]
+
+        def cli_one(k):
+            v, c = cli_pairs[k]
+            out = os.path.join(d, f"cli_mpi{k}.hex")
+            common.make_stale(out)
+            rc, log = common.run_cli(["mpi", "generate", "--output-file", out, "--vendor-name", v, "--class-name", c, "--address", "0x1000", "--size", "64"], d)
+            return rc, log, (open(out).read() if common.was_written(out) else None)
+        with ThreadPoolExecutor(max_workers=8) as ex:
+            cli_outs = list(ex.map(cli_one, range(len(cli_pairs))))
+        for (v, c), (rc, log, text) in zip(cli_pairs, cli_outs):
+            res.case(["cli-mpi", v, c], nontrivial=True)
+            res.count("sites:mpi-through-command-line")
+            evid = rfc4122_v5(DNS, v)
+            ecid = rfc4122_v5(evid, c)
+            if rc != 0 or text is None:
+                res.spec_failures.append({"vendor": v, "class": c, "site": "mpi (command line)", "what": f"mpi generate failed on the command line (exit {rc})", "log": log[-300:]})
+                continue
+            rec = bytes.fromhex(drv.call({"op": "ihex.read", "text": text})["ok"][0][1])
+            if rec[16:32] != evid or rec[32:48] != ecid:
+                res.spec_failures.append({"vendor": v, "class": c, "site": "mpi (command line)", "got": rec[16:48].hex(), "expected": (evid + ecid).hex(),
+                                          "what": "MPI record written through the command line: bytes 16..47 are not the vendor / class UUIDv5 of the names given"})
         # site 3 + kconfig semantics, end to end through image boot
         n = 40 if tier == "quick" else 1500
         for i in range(n):
